@@ -189,6 +189,13 @@ package handler
 //@ ensures[C15] message.RawData == old(message.RawData) && message.MessageType == old(message.MessageType) && message.LogLevel == old(message.LogLevel)
 //@ ensures[C15] old(message.Readable) != nil ==> *message == old(*message)
 
+// a copy shares nothing with the original: what one consumer does to its copy cannot reach another
+//@ func (*Message).Copy
+//@ requires[C07] message != nil
+//@ ensures[C15] result.MessageType == message.MessageType && result.ErrorMessage == message.ErrorMessage && len(result.RawData) == len(message.RawData)
+//@ ensures[C15] (len(message.RawData) > 0 ==> fresh(result.RawData)) && forall(k, 0, len(message.RawData), result.RawData[k] == message.RawData[k])
+//@ ensures[C15] *message == old(*message)
+
 //@ func (*Message).String
 //@ requires[C07] message != nil
 //@ requires[C07] ReadableWF(message)
